@@ -111,6 +111,30 @@ func FrameWithCRCByte(rng *rand.Rand, typ, plen int, want byte) []byte {
 	return nil
 }
 
+// FrameWithCRCBytesEqual searches for a frame whose CRC bytes at the given positions (0 = first, most
+// significant) all equal val - e.g. a CRC with a zero high byte, or with two leading zero bytes.
+// Returns nil if none is found.
+func FrameWithCRCBytesEqual(rng *rand.Rand, typ, plen int, pos []int, val byte) []byte {
+	if plen < 4 {
+		return nil
+	}
+	for try := 0; try < 1<<21; try++ {
+		f := Frame(rng, typ, plen, 0)
+		n := len(f)
+		ok := true
+		for _, p := range pos {
+			if f[n-3+p] != val {
+				ok = false
+				break
+			}
+		}
+		if ok {
+			return f
+		}
+	}
+	return nil
+}
+
 // Junk returns n bytes containing no 0xD3.  style 0 random binary, 1 NMEA-like, 2 UBX-like.
 func Junk(rng *rand.Rand, n, style int) []byte {
 	b := make([]byte, 0, n)
